@@ -216,6 +216,13 @@ VIS = {
     'head(3)': lambda v: util.rows_of(petl.head(v, 3)),
     'islice(5)': lambda v: list(itertools.islice(iter(v), 6)),
     'wrap[2]': lambda v: petl.wrap(v)[2],
+    # list() / tuple() ask a view for its len() first (a pass of its own over that view): still bounded by what the view selects
+    'list(head(3))': lambda v: list(petl.head(v, 3)),
+    'tuple(wrap.head(3))': lambda v: tuple(petl.wrap(v).head(3)),
+    'len(head(4))': lambda v: len(petl.head(v, 4)),
+    'list(rowslice(2, 6))': lambda v: list(petl.rowslice(v, 2, 6)),
+    'len(rowslice(1, 9, 2))': lambda v: len(petl.rowslice(v, 1, 9, 2)),
+    'list(head(cut(convert)))': lambda v: list(petl.head(petl.cut(petl.convert(v, 'f0', str), 'f0'), 2)),
     'wrap[1:] then 3 rows': lambda v: list(itertools.islice(iter(petl.wrap(v)[1:]), 3)),
     'wrap[2:9]': lambda v: list(petl.wrap(v)[2:9]),
     'wrap[1::2] then 3 rows': lambda v: list(itertools.islice(iter(petl.wrap(v)[1::2]), 3)),
@@ -234,7 +241,8 @@ VIS_LIMIT = {'look-vrepr-truncate-width': 5, 'look-simple-index-header': 3, 'see
              'lookall-on-head': 4, 'look-simple': 5, 'look-minimal': 5, 'look-minimal-limit2': 2, 'lookstr-simple': 5, 'look-config-minimal': 5, 'look-config-limit': 2,
              'see-limit2': 2, 'display-html': 5,
              'look': 5, 'look-limit2': 2, 'lookstr': 5, 'see': 5, 'repr(wrap)': 5, 'str(wrap)': 5, '_repr_html_': 5, 'head(3)': 3, 'islice(5)': 5,
-             'wrap[2]': 2, 'look(cut(convert))': 5, 'wrap[1:] then 3 rows': 4, 'wrap[2:9]': 9, 'wrap[1::2] then 3 rows': 6, 'values[2:] then 3': 5,
+             'list(head(3))': 8, 'tuple(wrap.head(3))': 8, 'len(head(4))': 5, 'list(rowslice(2, 6))': 14, 'len(rowslice(1, 9, 2))': 10,
+             'list(head(cut(convert)))': 6, 'wrap[2]': 2, 'look(cut(convert))': 5, 'wrap[1:] then 3 rows': 4, 'wrap[2:9]': 9, 'wrap[1::2] then 3 rows': 6, 'values[2:] then 3': 5,
              'data[1:] then 3': 4, 'cut-view[1:] then 2': 3}
 
 
